@@ -18,7 +18,9 @@ concrete trip counts) and a step/recursion budget turns anything else into
 """
 from __future__ import annotations
 
+import os
 import re
+import time
 import struct
 import sys
 from fractions import Fraction
@@ -477,6 +479,9 @@ class Machine:
         self.frame_ctr = 0
         self.cfg_cache = {}
         self.steps = 0
+        # wall-clock limit (time.time()) for run_until; ordinary generated functions execute in seconds, a function
+        # whose shape makes the path count explode ends as Inconclusive instead of running for hours
+        self.deadline = time.time() + float(os.environ.get("VERIF_EXEC_BUDGET_S", "900"))
         self.merges = 0
         self.oob = []  # (pathcond, description)
         self.init = {}  # lazily created symbols for never-written memory
@@ -971,6 +976,8 @@ class Machine:
                     self.steps += 1
                     if self.steps > self.MAX_STEPS:
                         raise Inconclusive("step budget exhausted")
+                    if self.deadline is not None and (self.steps & 255) == 0 and time.time() > self.deadline:
+                        raise Inconclusive("time budget of the symbolic execution exhausted (path explosion)")
                     r = self.exec(fn, fr, st, I, block)
                     if r is None:
                         continue
